@@ -8,6 +8,13 @@ for d in sorted(glob.glob('/verif/seeded/*')):
     meta = json.load(open(meta_p))
     cf = f'/tmp/mut/confirm-{m}.json'
     mx = f'/tmp/mut/matrix-{m}.json'
+    own = f'/tmp/mut/own-{m}.json'
+    if os.path.exists(own):
+        try:
+            o2 = json.load(open(own))
+            meta['own_check_final'] = {p: {'rc': v['rc'], 'lines': v['lines'][:2]} for p, v in o2.items()}
+        except Exception:
+            pass
     if os.path.exists(mx):
         try:
             o = json.load(open(mx))
@@ -19,7 +26,10 @@ for d in sorted(glob.glob('/verif/seeded/*')):
             pass
     notes = meta.get('notes_excerpt', '')
     json.dump(meta, open(meta_p, 'w'), indent=1)
-    own = meta['property'] in meta.get('detected_by', [])
+    fin = meta.get('own_check_final', {}).get(meta['property'], {})
+    own = meta['property'] in meta.get('detected_by', []) or fin.get('rc') == 1
+    if fin.get('lines'):
+        meta['own_check_first_lines'] = fin['lines']
     first = (meta.get('own_check_first_lines') or [''])[0]
     how = 'failing input' if meta.get('own_check_first_lines') and not any('no-failing-input-found' in l for l in meta['own_check_first_lines']) else 'no-failing-input-found'
     rows.append((m, ', '.join(meta.get('files_touched', [])), 'yes (' + how + ')' if own else 'NO', ' '.join(meta.get('detected_by', []))))
